@@ -679,7 +679,9 @@ theorem s_router (st : St) (n i : Nat) (f : Frame) (hG : G c S st) (hF : FrameOk
           · exact ih.process _ _ _ _ hG1 hF hR
           · rename_i acl _
             split
-            · -- `_process_dmz_outbound_frame`: two look-ups, then the second verdict
+            · -- `_process_dmz_outbound_frame`: broadcast guard, two look-ups, then the second verdict
+              split
+              · exact ⟨hG1, hF⟩
               have h1 := ih.ifc _ n f.dstIp false false hG1
               have hr2 : ∀ r2 : St × Option Nat, G c S r2.1 →
                   G c S (match r2.2.bind dmzSecondList with
